@@ -178,3 +178,123 @@ void h_f_clear(void) { V *x; size_t n; f_clear(x, n); }
 )
 
 UNITS = [axpby, axpbypcz, vmul, copy, clear]
+
+# ============================================================================================
+# spmv / residual for matrices with a row iterator (amgcl/backend/detail/matrix_ops.hpp), crs<V>
+# ============================================================================================
+MOPS = 'amgcl/backend/detail/matrix_ops.hpp'
+# rule R-iter: the row_iterator loop is the index loop over ptr[i]..ptr[i+1] (that this is what crs::row_iterator
+# does is the loop-free unit crs_row_iterator below)
+R_ITER = [
+    Rule(r'for\(typename row_iterator<Matrix>::type a = row_begin\(A, ([^;)]+)\); a; \+\+a\)',
+         r'for(ptrdiff_t a = A_ptr[\1]; a < A_ptr[(\1) + 1]; ++a)', '+', why='R-iter row_iterator -> index loop', early=True),
+    Rule(r'\ba\.value\(\)', 'A_val[a]', '+', why='R-iter'),
+    Rule(r'\ba\.col\(\)', 'A_col[a]', '+', why='R-iter'),
+    Rule(r'^\s*typedef typename value_type<Vector\d>::type V;\n', '', 1, why='V is bound by the value model', early=True),
+    Rule(r'rows\(A\)', 'A_nrows', 1, why='rows_impl<crs>::get = A.nrows'),
+    Rule(r'sum \+= (?P<e>[^;]+);', r'sum = UFE(sum + \g<e>);', '+', why='compound assignment spelled out'),
+]
+MO_HDR = HDR + r'''
+/* ghost: the watched row g_k and the FOLD of that row, defined by recurrence:
+ *   g_fold[p] = zero for p = ptr[g_k],  g_fold[j+1] = g_fold[j] + val[j] * x[col[j]]
+ * g_fold is a ghost input (never assigned); the recurrence is a universally quantified precondition over
+ * read-only arrays and is instantiated at the one place it is used (FOLD_STEP in the inner loop body).  It is
+ * a definition (exists for every val, col, x), hence cannot make the precondition unsatisfiable.           */
+const V *g_fold;
+#define UFE(e) (e)
+#define ZMAX 0x000fffffffffffffL
+#define FOLD_STEP(j) __CPROVER_assume(g_fold[(j) + 1] == UF_ADD(g_fold[j], UF_MUL(A_val[j], x[A_col[j]])))
+#define COL_OK(j) __CPROVER_assume(A_col[j] >= 0 && A_col[j] < (ptrdiff_t)x_n)
+#define ROW_OK(i) __CPROVER_assume(0 <= A_ptr[i] && A_ptr[i] <= A_ptr[(i) + 1] && A_ptr[(i) + 1] <= nnz)
+'''
+A_MOPS = A_ASSUME + [
+    'A-wf: crs well-formedness (ptr monotone within [0,nnz], columns in range) and the recurrence defining the ghost row fold are universally quantified preconditions over read-only arrays; they are instantiated pointwise where the arrays are read (ROW_OK, COL_OK, FOLD_STEP) -- sound because the arrays are not in the assigns clause',
+    'A-iter: the row_iterator loop is rewritten to the index loop over ptr[i]..ptr[i+1] (rule R-iter); that crs::row_iterator is exactly that is the loop-free unit crs_row_iterator',
+]
+
+
+def mo_outer(out, e_new, e_old):
+    return '''
+__CPROVER_assigns(i, __CPROVER_object_whole(%(o)s))
+__CPROVER_loop_invariant(0 <= i && i <= n)
+__CPROVER_loop_invariant(g_k < (size_t)i ? %(o)s[g_k] == %(new)s : %(old)s)
+__CPROVER_decreases(n - i)
+''' % {'o': out, 'new': e_new, 'old': e_old}
+
+
+MO_INNER = '''
+__CPROVER_assigns(a, sum)
+__CPROVER_loop_invariant(A_ptr[i] <= a && a <= A_ptr[(i) + 1] && A_ptr[(i) + 1] <= nnz && 0 <= A_ptr[i])
+__CPROVER_loop_invariant((size_t)i == g_k ==> sum == g_fold[a])
+__CPROVER_decreases(A_ptr[i + 1] - a)
+'''
+# instantiate the preconditions where the arrays are read
+R_INST = [
+    Rule(r'(V sum = MATH_zero\(V\);)', r'\1 ROW_OK(i);', '+', why='pointwise instantiation of crs_wf at the row read'),
+    Rule(r'(for\(ptrdiff_t a = A_ptr\[[^;]+; a < A_ptr\[[^;]+; \+\+a\)\s*(?:/\*@LOOP\d+@\*/)?\s*)(sum = [^;]+;)', r'\1{ COL_OK(a); FOLD_STEP(a); \2 }', '+',
+         why='pointwise instantiation of crs_wf (column range) and of the fold recurrence at the entry read'),
+]
+
+spmv = Unit(
+    name='builtin_spmv', props=['C07', 'C10'],
+    functions=['backend::spmv_impl<Alpha, crs, Vec1, Beta, Vec2>::apply (matrix_ops.hpp, same block size)'],
+    desc='y = alpha A x + beta y, row by row: y[k] == alpha * fold_k + beta * y0[k] (beta == 0: old y not read), fold_k = sum of a_kj * x_j in row order',
+    cuts={'body': Cut(MOPS, r'static void apply\(\s*Alpha alpha, const Matrix &A, const Vector1 &x, Beta beta, Vector2 &y\s*\)\s*(?=\{)', nth=0,
+                      rules=R_ITER + R_INST,
+                      uf=[UF(r'y\[i\] = (?P<e>[^;]+);', 2), UF(r'UFE\((?P<e>[^()]*(?:\([^()]*\)[^()]*)*)\)', 2)],
+                      loops=[Loop(r'for\(ptrdiff_t i = 0;', mo_outer('y', 'e_nz', 'y[g_k] == g_yk'), nth=0, prefix=True),
+                             Loop(r'for\(typename row_iterator', MO_INNER, nth=0, prefix=True),
+                             Loop(r'for\(ptrdiff_t i = 0;', mo_outer('y', 'e_z', '1'), nth=1, prefix=True),
+                             Loop(r'for\(typename row_iterator', MO_INNER, nth=1, prefix=True)])},
+    template=MO_HDR + r'''
+void f_spmv(V alpha, size_t A_nrows, ptrdiff_t nnz, const ptrdiff_t *A_ptr, const ptrdiff_t *A_col, const V *A_val,
+            const V *x, size_t x_n, V beta, V *y)
+__CPROVER_requires(A_nrows <= NMAX && x_n <= NMAX && 0 <= nnz && nnz <= ZMAX)
+__CPROVER_requires(__CPROVER_is_fresh(A_ptr, (A_nrows + 1) * sizeof(ptrdiff_t)) && __CPROVER_is_fresh(A_col, nnz * sizeof(ptrdiff_t)) && __CPROVER_is_fresh(A_val, nnz * sizeof(V)))
+__CPROVER_requires(__CPROVER_is_fresh(x, x_n * sizeof(V)) && __CPROVER_is_fresh(y, A_nrows * sizeof(V)) && __CPROVER_is_fresh(g_fold, (nnz + 1) * sizeof(V)))
+__CPROVER_requires(g_k < A_nrows && y[g_k] == g_yk)
+/* watched row: well-formed, and the fold starts from zero at the row start */
+__CPROVER_requires(0 <= A_ptr[g_k] && A_ptr[g_k] <= A_ptr[g_k + 1] && A_ptr[g_k + 1] <= nnz && g_fold[A_ptr[g_k]] == MATH_zero(V))
+__CPROVER_assigns(__CPROVER_object_whole(y))
+__CPROVER_ensures(math_is_zero(beta) ? y[g_k] == UF_MUL(alpha, g_fold[A_ptr[g_k + 1]])
+                                     : y[g_k] == UF_ADD(UF_MUL(alpha, g_fold[A_ptr[g_k + 1]]), UF_MUL(beta, g_yk)))
+{
+  const V e_z = UF_MUL(alpha, g_fold[A_ptr[g_k + 1]]);
+  const V e_nz = UF_ADD(UF_MUL(alpha, g_fold[A_ptr[g_k + 1]]), UF_MUL(beta, g_yk));
+/*@CUT:body@*/
+}
+void h_f_spmv(void) { V al, be; size_t n, xn; ptrdiff_t nnz; const ptrdiff_t *p, *c; const V *v, *x; V *y; f_spmv(al, n, nnz, p, c, v, x, xn, be, y); }
+''',
+    enforce='f_spmv', mode='inductive', assumptions=A_MOPS, timeout=300,
+)
+
+residual = Unit(
+    name='builtin_residual', props=['C07', 'C10'],
+    functions=['backend::residual_impl<crs, Vec1, Vec2, Vec3>::apply (matrix_ops.hpp, same block size)'],
+    desc='res = rhs - A x, row by row: res[k] == rhs[k] - fold_k',
+    cuts={'body': Cut(MOPS, r'static void apply\(\s*Vector1 const &rhs,\s*Matrix  const &A,\s*Vector2 const &x,\s*Vector3       &res\s*\)\s*(?=\{)',
+                      rules=R_ITER + R_INST,
+                      uf=[UF(r'res\[i\] = (?P<e>[^;]+);', 1), UF(r'UFE\((?P<e>[^()]*(?:\([^()]*\)[^()]*)*)\)', 1)],
+                      loops=[Loop(r'for\(ptrdiff_t i = 0;', mo_outer('res', 'e_r', '1'), prefix=True),
+                             Loop(r'for\(typename row_iterator', MO_INNER, prefix=True)])},
+    template=MO_HDR + r'''
+V g_fk;
+void f_residual(const V *rhs, size_t A_nrows, ptrdiff_t nnz, const ptrdiff_t *A_ptr, const ptrdiff_t *A_col, const V *A_val,
+                const V *x, size_t x_n, V *res)
+__CPROVER_requires(A_nrows <= NMAX && x_n <= NMAX && 0 <= nnz && nnz <= ZMAX)
+__CPROVER_requires(__CPROVER_is_fresh(A_ptr, (A_nrows + 1) * sizeof(ptrdiff_t)) && __CPROVER_is_fresh(A_col, nnz * sizeof(ptrdiff_t)) && __CPROVER_is_fresh(A_val, nnz * sizeof(V)))
+__CPROVER_requires(__CPROVER_is_fresh(x, x_n * sizeof(V)) && __CPROVER_is_fresh(rhs, A_nrows * sizeof(V)) && __CPROVER_is_fresh(res, A_nrows * sizeof(V)) && __CPROVER_is_fresh(g_fold, (nnz + 1) * sizeof(V)))
+__CPROVER_requires(g_k < A_nrows && rhs[g_k] == g_fk)
+__CPROVER_requires(0 <= A_ptr[g_k] && A_ptr[g_k] <= A_ptr[g_k + 1] && A_ptr[g_k + 1] <= nnz && g_fold[A_ptr[g_k]] == MATH_zero(V))
+__CPROVER_assigns(__CPROVER_object_whole(res))
+__CPROVER_ensures(res[g_k] == UF_SUB(g_fk, g_fold[A_ptr[g_k + 1]]))
+{
+  const V e_r = UF_SUB(g_fk, g_fold[A_ptr[g_k + 1]]);
+/*@CUT:body@*/
+}
+void h_f_residual(void) { size_t n, xn; ptrdiff_t nnz; const ptrdiff_t *p, *c; const V *v, *x, *f; V *r; f_residual(f, n, nnz, p, c, v, x, xn, r); }
+''',
+    enforce='f_residual', mode='inductive', assumptions=A_MOPS, timeout=300,
+)
+
+UNITS += [spmv, residual]
